@@ -251,6 +251,11 @@ def run(chk: Check):
     for big in range(2 if chk.tier == "quick" else 6):
         prng = np.random.default_rng(rng.randrange(10 ** 9))
         R, S, T, D = rng.choice([1, 2]), rng.choice([140001, 200000, 270000]), rng.randint(2, 4), 1       # noqa: N806
+        if big == 1:
+            # ... and once per run against a real series of ordinary length: tens of millions of kernel terms in one evaluation (more than any work-buffer or
+            # block size one might think of), the simulated length not a round number
+            R, S, T = 2, rng.choice([200003, 170001]), rng.randint(50, 64)      # noqa: N806
+            chk.count("likelihood:tens_of_millions_of_kernel_terms")
         simb = prng.standard_normal((R, S, D)) * 1.5 + 0.3; realb = prng.standard_normal((T, D))
         hb = ["silverman", "scott"][big % 2]
         with warnings.catch_warnings(), np.errstate(all="ignore"):
